@@ -108,6 +108,7 @@ type Specs struct {
 	GhostFns  map[string]*GhostFn
 	GhostVars map[string]string // name -> sort/type
 	Guards    []GuardDecl
+	PathGuards []PathGuard
 	FnFields  map[string]*Contract // key pkgpath.Struct.field
 	Inlines   map[string]bool      // key pkgpath.Func
 	Axioms    []Clause             // spec-level assumptions about ghost functions
@@ -158,7 +159,7 @@ func (s *Specs) LoadContractFile(path, pkgPath string, isGo bool) {
 			first = t[:j]
 		}
 		switch first {
-		case "unit", "requires", "ensures", "assigns", "loop", "ghost", "at", "trusted", "recovers", "inline", "extern", "pred", "ghostfn", "package", "guarded_by", "holds", "acquires", "props", "why", "fnfield", "ghostvar", "region", "assert", "axiom":
+		case "unit", "requires", "ensures", "assigns", "loop", "ghost", "at", "trusted", "recovers", "inline", "extern", "pred", "ghostfn", "package", "guarded_by", "guarded_path", "holds", "acquires", "props", "why", "fnfield", "ghostvar", "region", "assert", "axiom":
 			logical = append(logical, ll{t, i + 1})
 		default:
 			if len(logical) == 0 {
@@ -501,10 +502,32 @@ func (s *Specs) LoadContractFile(path, pkgPath string, isGo bool) {
 				}
 			}
 			s.Guards = append(s.Guards, g)
+		case "guarded_path":
+			// guarded_path Struct.mutex: f1.f2.table, ...  : the contents of the maps reached from a
+			// Struct through these field chains are protected by Struct.mutex
+			c := strings.Index(rest, ":")
+			sm := strings.Split(strings.TrimSpace(rest[:max(c, 0)]), ".")
+			if c < 0 || len(sm) != 2 {
+				errf(l.n, "guarded_path wants Struct.mutex: chain, ...")
+				continue
+			}
+			g := PathGuard{Pkg: curPkg, Struct: sm[0], Mutex: sm[1]}
+			for _, f := range strings.Split(rest[c+1:], ",") {
+				if f = strings.TrimSpace(f); f != "" {
+					g.Chains = append(g.Chains, strings.Split(f, "."))
+				}
+			}
+			s.PathGuards = append(s.PathGuards, g)
 		default:
 			errf(l.n, "unknown clause %q", kw)
 		}
 	}
+}
+
+// PathGuard: maps reached from a struct through a chain of fields are protected by its mutex.
+type PathGuard struct {
+	Pkg, Struct, Mutex string
+	Chains             [][]string
 }
 
 // splitTop splits on sep at paren depth 0.
